@@ -68,7 +68,7 @@ def closed_form(A, B, E=None, M=None, **kw):
 
 
 def gradient(cx, n=2, ncols=1, method="custom_exactsolve", opkind="dense", withE=False, withM=False, complex_=False,
-             second=False, bck_method=None, batchB=(), concreteM=False, concreteA=False):
+             second=False, bck_method=None, batchB=(), concreteM=False, concreteA=False, frozen=()):
     if concreteA:
         # A fixed at one (non-symmetric, non-singular) point; it still is an autograd leaf
         av = torch.tensor([[1.5, -0.5, 0.25], [0.75, 2.0, -1.0], [0.5, 0.25, 1.25]], dtype=torch.float64)[:n, :n]
@@ -81,12 +81,19 @@ def gradient(cx, n=2, ncols=1, method="custom_exactsolve", opkind="dense", withE
     use_mats = mats
     if opkind.startswith("herm"):
         use_mats = [(mats[0] + _H(mats[0])) * 0.5]
-    B = cx.sym("b", batchB + (n, ncols), complex_=complex_, requires_grad=True)
-    leaves.append(B)
+    # frozen: inputs that do NOT require grad ("a", "b", "e"): the others must still get their exact gradients
+    if "a" in frozen:
+        mats = [m.detach() for m in mats]
+        use_mats = [m.detach() for m in use_mats]
+        leaves = []
+    B = cx.sym("b", batchB + (n, ncols), complex_=complex_, requires_grad="b" not in frozen)
+    if "b" not in frozen:
+        leaves.append(B)
     E = None
     if withE:
-        E = cx.sym("e", (ncols,), complex_=complex_, requires_grad=True)
-        leaves.append(E)
+        E = cx.sym("e", (ncols,), complex_=complex_, requires_grad="e" not in frozen)
+        if "e" not in frozen:
+            leaves.append(E)
     M = Mop = None
     if withM:
         l, ld = _mk_M_leaves(cx, n, complex_, concrete=concreteM)
@@ -120,7 +127,8 @@ def gradient(cx, n=2, ncols=1, method="custom_exactsolve", opkind="dense", withE
     lossr = (G.conj() * Xr).sum().real if complex_ else (G * Xr).sum()
     g1 = grads(loss, leaves, create_graph=second)
     g2 = grads(lossr, leaves, create_graph=second)
-    names = ["a%d" % i for i in range(len(mats))] + ["b"] + (["e"] if withE else []) + (["l", "ld"] if withM else [])
+    names = (["a%d" % i for i in range(len(mats))] if "a" not in frozen else []) + (["b"] if "b" not in frozen else []) + \
+        (["e"] if withE and "e" not in frozen else []) + (["l", "ld"] if withM else [])
     for nm, x, y, lf in zip(names, g1, g2, leaves):
         cx.claim_eq("d/d" + nm, x, y)
     if second:
@@ -223,6 +231,15 @@ def configs(tier):
         add("grad/closed_form/%s/A/n2c1/complex" % opkind, gradient, n=2, ncols=1, method="closed_form", opkind=opkind,
             complex_=True)
         add("grad/default/%s/AE/n2c1/2nd" % opkind, gradient, n=2, ncols=1, method=None, opkind=opkind, withE=True, second=True)
+    # some inputs constant (do not require grad): the remaining gradients are unchanged
+    add("grad/custom_exactsolve/dense/AE/n2c1/B_constant/2nd", gradient, n=2, ncols=1, method="custom_exactsolve", opkind="dense",
+        withE=True, frozen=("b",), second=True)
+    add("grad/custom_exactsolve/dense/AE/n2c2/A_constant", gradient, n=2, ncols=2, method="custom_exactsolve", opkind="dense",
+        withE=True, frozen=("a",))
+    add("grad/custom_exactsolve/dense/AEM/n2c1/E_constant", gradient, n=2, ncols=1, method="custom_exactsolve", opkind="dense",
+        withE=True, withM=True, frozen=("e",))
+    add("grad/closed_form/mvonly/AE/n2c1/AB_constant", gradient, n=2, ncols=1, method="closed_form", opkind="mvonly",
+        withE=True, frozen=("a", "b"))
     add("grad/custom_exactsolve/dense/AE/Bbatch", gradient, n=2, ncols=1, method="custom_exactsolve", opkind="dense", withE=True,
         batchB=(2,))
     add("grad/custom_exactsolve/dense/AEM/bck_custom", gradient, n=2, ncols=1, method="custom_exactsolve", opkind="dense",
